@@ -40,12 +40,13 @@ def s_thread(draw, tid):
         if draw(st.integers(0, 2)) == 0:
             new = draw(H.TAGSET)
             ops.append({"op": "tags", "new": sorted(new), "gone": sorted(draw(H.TAGSET) - new)})
-        ops.append({"op": "time", "t": 100 * tid + 10 * k})
+        t0 = draw(st.sampled_from([10 * k, 10 * k, 10 * k + 5, 100 * tid + 10 * k]))     # collisions across tests and threads
+        ops.append({"op": "time", "t": t0})
         ops.append({"op": "startTest", "k": k})
         if draw(st.integers(0, 1)) == 0:
             new = draw(H.TAGSET)
             ops.append({"op": "tags", "new": sorted(new), "gone": sorted(draw(H.TAGSET) - new)})
-        ops.append({"op": "time", "t": 100 * tid + 10 * k + 5})
+        ops.append({"op": "time", "t": draw(st.sampled_from([10 * k + 10, 10 * k + 5, t0, 100 * tid + 10 * k + 5]))})
         ops.append({"op": "outcome", "kind": draw(H.KIND)})
         if draw(st.integers(0, 3)) == 0:
             new = draw(H.TAGSET)
@@ -279,10 +280,10 @@ def small_config(nthreads, ntests, fault=None, tags=True):
     for tid in range(nthreads):
         ops = []
         for k in range(ntests):
-            ops += [{"op": "time", "t": 100 * tid + 10 * k}, {"op": "startTest", "k": k}]
+            ops += [{"op": "time", "t": 10 * k}, {"op": "startTest", "k": k}]
             if tags:
                 ops.append({"op": "tags", "new": ["t%d" % tid], "gone": []})
-            ops += [{"op": "time", "t": 100 * tid + 10 * k + 5}, {"op": "outcome", "kind": "success" if k else "failure"}, {"op": "stopTest"}]
+            ops += [{"op": "time", "t": 10 * k + 10}, {"op": "outcome", "kind": "success" if k else "failure"}, {"op": "stopTest"}]
         if tid == 0:
             ops.append({"op": "stop"})
         threads.append(ops)
